@@ -395,11 +395,21 @@ Proof.
   - apply (IH r' i x eq_refl Hn).
 Qed.
 
+Lemma map_quote_sheet : forall l, map quote_sheet_name l = map sheet_text l.
+Proof. intros l. apply map_ext. exact quote_sheet_name_spec. Qed.
+
+Lemma nthN_map : forall (A B : Type) (f : A -> B) (l : list A) i,
+  nthN (map f l) i = match nthN l i with Some x => Some (f x) | None => None end.
+Proof.
+  induction l as [|x l IH]; intros i; [reflexivity|]. cbn [map nthN].
+  destruct (i =? 0); [reflexivity|apply IH].
+Qed.
+
 (* what xls_read_names does on an encoded globals substream *)
 Lemma xls_read_names_unfold : forall show_f64 sheets gs names xtis, forallb wf_grec gs = true ->
   xls_read_names show_f64 sheets (map enc_grec gs) = Ok (names, xtis) ->
   exists raw, spec_lbls (lbls_of gs) = Ok raw /\ xtis = xtis_of gs /\
-    map_o (xls_final_name show_f64 sheets (xtis_of gs) (map fst raw)) raw = Ok names.
+    map_o (xls_final_name show_f64 (map quote_sheet_name sheets) (xtis_of gs) (map fst raw)) raw = Ok names.
 Proof.
   intros show_f64 sheets gs names xtis Hwf H. unfold xls_read_names in H.
   rewrite xls_globals_spec in H by exact Hwf.
@@ -438,12 +448,13 @@ Theorem defined_name_text_is_render_xls : forall show_f64 sheets gs names xtis i
   xls_read_names show_f64 sheets (map enc_grec gs) = Ok (names, xtis) ->
   nth_error (lbls_of gs) i = Some d -> lb_rgce d = encode_xls e ->
   N.of_nat (length (encode_xls e)) < 65536 ->
-  let env := {| xe_sheets := sheets; xe_names := map lb_name (lbls_of gs); xe_xtis := xtis_of gs |} in
+  let env := {| xe_sheets := map sheet_text sheets; xe_names := map lb_name (lbls_of gs); xe_xtis := xtis_of gs |} in
   wf_xls env e = true ->
   nth_error names i = Some (lb_name d, render_xls show_f64 env e).
 Proof.
   intros show_f64 sheets gs names xtis i d e Hwf H Hn Hr Hlen env Hwe.
   destruct (xls_read_names_unfold _ _ _ Hwf H) as (raw & Er & Ex & El).
+  rewrite map_quote_sheet in El.
   destruct (spec_lbls_nth _ _ Er Hn) as [f Hraw].
   destruct (@map_o_nth _ _ _ _ _ _ _ El Hraw) as [y [Ey Hy]]. rewrite Hy. f_equal.
   unfold xls_final_name in Ey. cbn [fst snd] in Ey.
@@ -482,17 +493,31 @@ Proof.
 Qed.
 
 (* a 3-D token's sheet is the itabFirst-th sheet of the ixti-th XTI of the file (all EXTERNSHEET
-   records concatenated) — not the ixti-th sheet *)
+   records concatenated) — not the ixti-th sheet.
+   The table the reader hands to the decoder holds the names as formula text writes them
+   ([sheet_text]: quoted when the grammar demands it; former observation G7). *)
 Theorem sheet3d_through_xti_xls : forall show_f64 sheets gs names xtis i x nm, forallb wf_grec gs = true ->
   xls_read_names show_f64 sheets (map enc_grec gs) = Ok (names, xtis) ->
   nth_error (xtis_of gs) i = Some x -> snd (fst x) < 32768 ->
-  spec_sheet_xls {| xe_sheets := sheets; xe_names := nm; xe_xtis := xtis |} (N.of_nat i)
-  = match nthN sheets (snd (fst x)) with Some s => s | None => lit "#REF" end.
+  spec_sheet_xls {| xe_sheets := map quote_sheet_name sheets; xe_names := nm; xe_xtis := xtis |} (N.of_nat i)
+  = match nthN sheets (snd (fst x)) with Some s => sheet_text s | None => lit "#REF" end.
 Proof.
   intros show_f64 sheets gs names xtis i x nm Hwf H Hn Hx.
   destruct (defined_names_in_order_xls _ _ _ Hwf H) as [_ Hxt]. subst xtis.
   unfold spec_sheet_xls. cbn [xe_xtis xe_sheets]. rewrite nthN_nth_error, Hn.
-  destruct x as [[a b] c]. cbn [fst snd] in *. apply N.ltb_lt in Hx. rewrite Hx. reflexivity.
+  destruct x as [[a b] c]. cbn [fst snd] in *. apply N.ltb_lt in Hx. rewrite Hx.
+  rewrite nthN_map. destruct (nthN sheets b); [rewrite quote_sheet_name_spec|]; reflexivity.
+Qed.
+
+(* xlsb: an XTI that points at a sheet of this workbook resolves to that sheet's formula text *)
+Theorem resolve_xti_sheet_text : forall sheets first s, first < 2147483648 ->
+  nthN sheets first = Some s -> resolve_xti sheets first = sheet_text s.
+Proof.
+  intros sheets first s Hlt Hs. unfold resolve_xti.
+  assert (E1 : (first =? 4294967294) = false) by (apply N.eqb_neq; lia).
+  assert (E2 : (first =? 4294967295) = false) by (apply N.eqb_neq; lia).
+  assert (E3 : (first <? 2147483648) = true) by (apply N.ltb_lt; lia).
+  rewrite E1, E2, E3, Hs. apply quote_sheet_name_spec.
 Qed.
 
 (* ================================================================== formula ranges ==== *)
@@ -547,11 +572,11 @@ Definition ex_names : list name_rec :=
 
 Example xlsb_names_nonvacuous :
   forallb wf_name_rec ex_names = true /\ forallb wf_xti [(0, 1, 1); (0, 4294967294, 4294967294)] = true /\
-  xlsb_read_names (fun _ => []) [lit "S1"; lit "S2"]
+  xlsb_read_names (fun _ => []) [lit "S1"; lit "O'Neil 2"]
     ((0x0165, []) :: (0x016A, enc_externsheet [(0, 1, 1); (0, 4294967294, 4294967294)])
        :: map (fun d => (0x0027, enc_brtname d)) ex_names ++ [(0x009D, [])])
-  = Ok ([lit "S2"; lit "#ThisWorkbook"],
-        [(lit "_xlnm._FilterDatabase", lit "S2!$A$1:$C$10"); (lit "Rate", lit "5"); ([26085; 128512], lit "Rate*2")]).
+  = Ok ([lit "'O''Neil 2'"; lit "#ThisWorkbook"],
+        [(lit "_xlnm._FilterDatabase", lit "'O''Neil 2'!$A$1:$C$10"); (lit "Rate", lit "5"); ([26085; 128512], lit "Rate*2")]).
 Proof. vm_compute. repeat split. Qed.
 
 Definition ex_globals : list grec :=
@@ -565,8 +590,8 @@ Definition ex_globals : list grec :=
 
 Example xls_names_nonvacuous :
   forallb wf_grec ex_globals = true /\
-  xls_read_names (fun _ => []) [lit "S1"; lit "S2"] (map enc_grec ex_globals)
-  = Ok ([([13], lit "S2!$A$1:$C$10"); ([26085; 128512], lit "S1!$AB$5")], [(0, 1, 1); (0, 0, 0)]).
+  xls_read_names (fun _ => []) [lit "S1"; lit "My Sheet"] (map enc_grec ex_globals)
+  = Ok ([([13], lit "'My Sheet'!$A$1:$C$10"); ([26085; 128512], lit "S1!$AB$5")], [(0, 1, 1); (0, 0, 0)]).
 Proof. vm_compute. repeat split. Qed.
 
 (* ---------- former known class K_XLS_NAME_FORMULA (repaired): a name defined by a constant, by an
